@@ -83,6 +83,11 @@ func progressMode(r *common.Run, sk *sink) {
 		runStreamThenSnapshot(r, sk, c, r.Rand("sts", c), r.SubSeed("sts-seed", c))
 		r.Flush()
 	}
+	// directed prefix: two followers of an on-disk shard need a streamed snapshot at the same time
+	for _, c := range r.MyCases(r.Pick(4, 40)) {
+		runTwoLaggingStreams(r, sk, c, r.Rand("tls", c), r.SubSeed("tls-seed", c))
+		r.Flush()
+	}
 }
 
 func runProgress(r *common.Run, sk *sink, caseNo int, rng *rand.Rand, seed int64) {
@@ -1327,4 +1332,152 @@ func runWitnessLeaderLoss(r *common.Run, sk *sink, caseNo int, rng *rand.Rand, s
 		sk.Count("witness_leader_loss_cases_completed", 1)
 	}
 	r.Case(done, common.Hash("wll", caseNo, desc))
+}
+
+// runTwoLaggingStreams: directed prefix for the stream hand-over of an on-disk state machine. A
+// shard of five voters; two followers are cut off at the same time until the other three have
+// compacted what they miss, then both links are healed at once: the leader has to stream to both,
+// its state machine dwells in SaveSnapshot, so the request for the second stream arrives while
+// the first is running and is refused. A refused stream must be reported as a failed snapshot of
+// the replica it was meant for, so that raft asks again. Verdict on ticks of each lagging
+// replica's own clock (P4 of the progress stage): within catchUpTicks ticks after the heal it
+// holds an entry that was completed after the heal. Reported to C17 (a reachable replica catches
+// up) and C08 (a lagging follower is brought up to date by a snapshot rather than left with a gap).
+func runTwoLaggingStreams(r *common.Run, sk *sink, caseNo int, rng *rand.Rand, seed int64) {
+	store := cluster.Pebble
+	if rng.Intn(3) == 0 {
+		store = cluster.Tan
+	}
+	snap := uint64(8 + rng.Intn(8))
+	slowSave := time.Duration(400+rng.Intn(800)) * time.Millisecond
+	desc := fmt.Sprintf("ondisk 5 voters store=%s snapshotEntries=%d saveSnapshot dwells %v", store, snap, slowSave)
+	fmt.Printf("two-lagging-streams case %d %s\n", caseNo, desc)
+	c := cluster.NewCluster(cluster.Options{Hosts: 5, Seed: seed, RTTMs: 10, Store: store,
+		SMOpt: func(uint64, uint64) cluster.SMOptions {
+			return cluster.SMOptions{Kind: cluster.OnDisk, RecordApply: true, SlowSave: slowSave}
+		}}, sk)
+	const shardID = 1
+	clock := &tickClock{m: map[uint64]*int64{}}
+	verifhook.SetPoint(verifhook.NodeTick, func(s, rep uint64) {
+		if s == shardID {
+			atomic.AddInt64(clock.ctr(rep), 1)
+		}
+	})
+	defer verifhook.SetPoint(verifhook.NodeTick, func(uint64, uint64) {})
+	if err := c.StartAll(); err != nil {
+		r.Inconclusive(fmt.Sprintf("two-lagging-streams case %d: start failed: %v", caseNo, err))
+		return
+	}
+	defer c.StopAll()
+	members := c.Members(5)
+	replicas := map[uint64]int{1: 0, 2: 1, 3: 2, 4: 3, 5: 4}
+	for i := 0; i < 5; i++ {
+		cfg := cluster.ShardConfig(shardID, uint64(i+1))
+		cfg.SnapshotEntries, cfg.CompactionOverhead = snap, 1
+		if err := c.Hosts[i].StartReplica(members, false, cluster.OnDisk, cfg); err != nil {
+			r.Inconclusive(fmt.Sprintf("two-lagging-streams case %d: %v", caseNo, err))
+			return
+		}
+	}
+	if !waitFor(15*time.Second, func() bool { return c.SelfLeader(shardID, replicas) >= 0 }) {
+		r.Inconclusive(fmt.Sprintf("two-lagging-streams case %d: no first leader", caseNo))
+		return
+	}
+	var stopFlag int32
+	var wg sync.WaitGroup
+	var done int64
+	var lastID uint64
+	for g := 0; g < 2; g++ {
+		wg.Add(1)
+		go func(g int) {
+			defer wg.Done()
+			prng := rand.New(rand.NewSource(seed + int64(g)))
+			for atomic.LoadInt32(&stopFlag) == 0 {
+				if li := c.SelfLeader(shardID, replicas); li >= 0 {
+					if nh := c.Hosts[li].NodeHost(); nh != nil {
+						id := cluster.NewID()
+						ctx, cancel := context.WithTimeout(context.Background(), 300*time.Millisecond)
+						if _, err := nh.SyncPropose(ctx, nh.GetNoOPSession(shardID), cluster.MakeCmd(0, id)); err == nil {
+							atomic.AddInt64(&done, 1)
+							atomic.StoreUint64(&lastID, id)
+						}
+						cancel()
+					}
+				}
+				time.Sleep(time.Duration(1+prng.Intn(3)) * time.Millisecond)
+			}
+		}(g)
+	}
+	defer func() { atomic.StoreInt32(&stopFlag, 1); wg.Wait() }()
+	has := func(rep uint64, id uint64) bool {
+		in := c.SMs.Latest(shardID, rep)
+		if in == nil {
+			return false
+		}
+		_, lists := in.AppliedAndLists()
+		for i := len(lists[0]) - 1; i >= 0; i-- {
+			if lists[0][i] == id {
+				return true
+			}
+		}
+		return false
+	}
+	l1 := c.SelfLeader(shardID, replicas)
+	if l1 < 0 {
+		r.Inconclusive(fmt.Sprintf("two-lagging-streams case %d: leader lost", caseNo))
+		return
+	}
+	f1 := (l1 + 1 + rng.Intn(4)) % 5
+	f2 := (l1 + 1 + rng.Intn(4)) % 5
+	for f2 == f1 {
+		f2 = (f2 + 1) % 5
+		if f2 == l1 {
+			f2 = (f2 + 1) % 5
+		}
+	}
+	c.Net.Isolate(c.Hosts[f1].Addr, false)
+	c.Net.Isolate(c.Hosts[f2].Addr, false)
+	before := atomic.LoadInt64(&done)
+	lagged := waitFor(8*time.Second, func() bool { return atomic.LoadInt64(&done)-before > int64(3*snap+8) })
+	chunksBefore := c.Net.Stats().Chunks
+	c.Net.HealAll()
+	if !lagged {
+		r.Inconclusive(fmt.Sprintf("two-lagging-streams case %d: the rest of the shard did not complete enough proposals to compact the log", caseNo))
+		return
+	}
+	time.Sleep(50 * time.Millisecond)
+	target := atomic.LoadUint64(&lastID)
+	ok := true
+	base := map[int]int64{f1: clock.get(uint64(f1 + 1)), f2: clock.get(uint64(f2 + 1))}
+	wall := time.Now()
+	for _, hi := range []int{f1, f2} {
+		rep := uint64(hi + 1)
+		for !has(rep, target) && clock.get(rep)-base[hi] < catchUpTicks && time.Since(wall) < 180*time.Second {
+			time.Sleep(20 * time.Millisecond)
+		}
+		switch {
+		case has(rep, target):
+			r.Max("max_ticks_until_caught_up", clock.get(rep)-base[hi])
+			sk.Count("replicas_caught_up", 1)
+		case clock.get(rep)-base[hi] >= catchUpTicks:
+			ok = false
+			what := fmt.Sprintf("replicas %d and %d of an on-disk shard of 5 voters lagged beyond the compacted log at the same time and were reconnected together; replica %d processed %d ticks while the shard completed proposals and still misses an entry committed right after the heal", f1+1, f2+1, rep, clock.get(rep)-base[hi])
+			w := map[string]interface{}{"case": caseNo, "config": desc, "lagging": []int{f1 + 1, f2 + 1}, "leader": l1 + 1, "stuck": rep}
+			sk.Violation("C17", "reachable-replica-does-not-catch-up:two-streams-at-once", what, w)
+			sk.Violation("C08", "lagging-follower-left-with-a-gap:two-streams-at-once", what, w)
+		default:
+			ok = false
+			r.Inconclusive(fmt.Sprintf("two-lagging-streams case %d: ticks of replica %d did not advance", caseNo, rep))
+		}
+	}
+	sk.Count("two_lagging_streams_chunks_after_heal", c.Net.Stats().Chunks-chunksBefore)
+	var recov int64
+	for _, in := range c.SMs.Instances() {
+		recov += in.Calls()["RecoverFromSnapshot"]
+	}
+	sk.Count("two_lagging_streams_recover_from_snapshot_calls", recov)
+	r.Case(ok && recov >= 2, common.Hash("tls", caseNo, desc, recov))
+	if r.WantSample() {
+		r.Sample(map[string]interface{}{"two_lagging_streams_case": caseNo, "config": desc, "recover_from_snapshot_calls": recov, "proposals": atomic.LoadInt64(&done)})
+	}
 }
